@@ -76,6 +76,8 @@ type State struct {
 	steps   int
 	id      int
 	depth   int // number of forks on this path
+	vdepth  int    // number of value forks (forkValues) on this path
+	vhash   uint64 // hash of the values chosen at those forks (shard key)
 	pinned  map[string]*big.Int // variables equal to a constant on this path (copy on write)
 	pinnedIDs []int
 }
